@@ -358,6 +358,8 @@ impl WorldC {
                 2 => tpw,
                 3 => tpw.saturating_mul(3).saturating_add(1),
                 4 => (u64::MAX as u128).saturating_mul(tpw).saturating_add(tpw.saturating_mul(6)),
+                // a weight that fits in u64 on its own; two of them do not
+                6 if tpw <= (1u128 << 30) => *rng.pick(&[1u128 << 63, (1u128 << 63) + 5, (u64::MAX as u128) - 3]) * tpw,
                 5 => amount_near(rng, bal),
                 _ => (tpw.max(1)).saturating_mul(rng.range(1, 20) as u128).min(bal.max(1)),
             };
@@ -946,7 +948,11 @@ fn dec(rng: &mut Rng, lo_permille: u64, hi_permille: u64, fine: bool) -> String 
     if p == 1000 {
         return "1".to_string();
     }
-    if fine && rng.chance(1, 2) {
+    if fine && rng.chance(1, 4) {
+        // a hair above a round value: only digits beyond the ninth decimal are set
+        let tail = *rng.pick(&[1u64, 1, 100_000_000, 999_999_999, 123_456_789]);
+        format!("0.{:03}000000{:09}", p, tail)
+    } else if fine && rng.chance(1, 2) {
         let extra = rng.below(1_000_000_000_000_000);
         format!("0.{:03}{:015}", p, extra)
     } else {
@@ -967,18 +973,20 @@ fn gen_threshold(rng: &mut Rng, total_hint: u64, fine: bool) -> Value {
             json!({"absolute_count":{"weight": w}})
         }
         1 => {
-            let p = match rng.below(8) {
+            let p = match rng.below(10) {
                 0 => "0.5".to_string(),
                 1 => "1".to_string(),
                 2 => "0.499".to_string(), // invalid
+                3 if fine => (*rng.pick(&["0.500000000000000001", "0.5000000001", "0.666666666666666666", "0.666666666666666667", "0.999999999999999999"])).to_string(),
                 _ => dec(rng, 500, 1000, fine),
             };
             json!({"absolute_percentage":{"percentage": p}})
         }
         _ => {
-            let t = match rng.below(8) {
+            let t = match rng.below(10) {
                 0 => "0.5".to_string(),
                 1 => "1".to_string(),
+                2 if fine => (*rng.pick(&["0.500000000000000001", "0.5000000001", "0.666666666666666666", "0.666666666666666667", "0.999999999999999999"])).to_string(),
                 _ => dec(rng, 500, 1000, fine),
             };
             let q = match rng.below(8) {
@@ -1113,6 +1121,14 @@ impl World for WorldC {
                 tot = tot.saturating_add(w);
                 voters.push(json!({"addr": addr_of(u), "weight": w}));
             }
+            if rng.chance(1, 14) && voters.len() >= 2 {
+                // weights that are each a legal u64 and only overflow together: whatever instantiate accepts
+                let big = *rng.pick(&[1u64 << 63, (1u64 << 63) - 1, u64::MAX / 2 + 2, u64::MAX]);
+                for v in voters.iter_mut().take(2) {
+                    v["weight"] = json!(big);
+                }
+                tot = u64::MAX;
+            }
             if rng.chance(1, 12) && voters.len() >= 2 {
                 // repeated address: whatever instantiate accepts
                 let mut d = voters[0].clone();
@@ -1197,7 +1213,7 @@ impl World for WorldC {
         universe.extend(sinks.iter().cloned());
         // funds
         for (i, u) in users.iter().enumerate() {
-            let big = if i == 0 { (1u128 << 100) + 12345 } else { 1_000_000_000 };
+            let big = if i < 2 { (1u128 << 100) + 12345 } else { 1_000_000_000 };
             chain.mint(
                 u,
                 vec![
@@ -1212,7 +1228,7 @@ impl World for WorldC {
         let bal: Vec<Value> = users
             .iter()
             .enumerate()
-            .map(|(i, u)| json!({"address": u, "amount": if i == 0 { ((1u128 << 100) + 777).to_string() } else { "1000000000".to_string() }}))
+            .map(|(i, u)| json!({"address": u, "amount": if i < 2 { ((1u128 << 100) + 777).to_string() } else { "1000000000".to_string() }}))
             .collect();
         let tok_init = json!({"name":"Gov Token","symbol":"GOV","decimals":6,"initial_balances": bal,"mint":null,"marketing":null});
         let token = chain
